@@ -23,7 +23,8 @@ Section Block.
   Definition blk_ok (B : blk) : Prop :=
     length (k_thr B) = e_mi E /\
     (forall i p, nth_error (k_thr B) i = Some p -> ok_priv E (Wof (k_phase B)) i p) /\
-    (k_phase B = length secs -> forall i p, nth_error (k_thr B) i = Some p -> p_k p = []).
+    (k_phase B = length secs -> forall i p, nth_error (k_thr B) i = Some p -> p_k p = []) /\
+    k_phase B <= length secs.
 
   Definition Inv (s : gst) : Prop := forall b B, nth_error (s_blks s) b = Some B -> blk_ok B.
 
@@ -92,7 +93,7 @@ Section Block.
     - apply thr_inv in H as [B [p [p' [act [HB [Hp [Ht ->]]]]]]].
       intros c C HC. simpl in HC. destruct (Nat.eq_dec b c) as [->|Hne].
       + rewrite nth_error_upd_eq in HC by (eapply nth_error_lt; eauto). inversion HC; subst; clear HC.
-        destruct (HI c B HB) as [H1 [H2 H3]]. split; [|split]; simpl.
+        destruct (HI c B HB) as [H1 [H2 [H3 H4]]]. split; [|split; [|split]]; simpl; auto.
         * rewrite upd_length; auto.
         * intros j q Hq. destruct (Nat.eq_dec i j) as [->|Hij].
           -- rewrite nth_error_upd_eq in Hq by (eapply nth_error_lt; eauto). inversion Hq; subst.
@@ -103,7 +104,7 @@ Section Block.
     - apply bar_inv in H as [B [HB [Hlt [Hnil ->]]]].
       intros c C HC. simpl in HC. destruct (Nat.eq_dec b c) as [->|Hne].
       + rewrite nth_error_upd_eq in HC by (eapply nth_error_lt; eauto). inversion HC; subst; clear HC.
-        destruct (HI c B HB) as [H1 [H2 H3]]. split; [|split]; simpl.
+        destruct (HI c B HB) as [H1 [H2 [H3 H4]]]. split; [|split; [|split]]; simpl; auto.
         * rewrite map_length; auto.
         * intros j q Hq. rewrite nth_error_map in Hq. destruct (nth_error (k_thr B) j); try discriminate.
           inversion Hq; subst. apply entry_ok'.
@@ -226,7 +227,7 @@ Section Block.
     intros HI Hf l. unfold finished in Hf. rewrite forallb_forall in Hf.
     destruct (step l s) eqn:Hs; auto. exfalso. destruct l as [b i|b].
     - apply thr_inv in Hs as [B [p [p' [act [HB [Hp [Ht _]]]]]]].
-      destruct (HI b B HB) as [_ [_ H3]].
+      destruct (HI b B HB) as [_ [_ [H3 _]]].
       assert (Hph : k_phase B = length secs) by (apply Nat.eqb_eq, Hf; eapply nth_error_In; eauto).
       unfold tstep in Ht. rewrite (H3 Hph i p Hp) in Ht. discriminate.
     - apply bar_inv in Hs as [B [HB [Hlt _]]].
